@@ -47,6 +47,10 @@ def run_one(entry):
                              first=[l for l in r.stdout.splitlines() if l.startswith(("VIOLATION", "UNDECIDED", "CHECKER-CRASH"))][:2])
             if r.returncode != want:
                 allok = False
+        if entry.get("expect", 1) == 1 and len(entry["checks"]) > 1:
+            # a breaking change listed against several checks: caught iff at least one reports a violation and none crashes
+            rcs = [v["rc"] for v in res.values()]
+            allok = (1 in rcs) and (3 not in rcs)
         return dict(name=entry["name"], ok=allok, results=res)
     finally:
         shutil.rmtree(d, ignore_errors=True)
